@@ -3,16 +3,23 @@
 Domain : generated helper flows (vf/co2.py) under a fixed `main` that only starts/activates them, plus
          (a) ONE injected erroneous statement at an enumerated position of one helper (bad expression, bad subscript,
              undefined reference, invalid regex pattern, type-mismatching comparison pattern, surplus flow arguments,
-             out-of-range priority, wrong action argument type), preceded by the marker `send Reached()`;
+             out-of-range priority, wrong action argument type), preceded by the marker `send Reached()`; or a VALID comparison
+             pattern (`match EvC(v=op(number))`, plain or inside a list / dict pattern) whose error only exists together with an
+             incoming value of another type: there the payload of the canary event (string, list, dict, None, the other numeric
+             type, a well-typed number that does not satisfy the comparison, parameter missing) is part of the case;
          (b) activated flows that finish / return / abort / raise before their first waiting statement;
          (c) two canary flows (same interaction loop as main / a loop of their own) and a ColangError watcher.
-         Histories mix alphabet events, action life-cycle events and the canary event EvC.
+         Histories mix alphabet events, action life-cycle events, the canary event EvC and `toward` items that feed what the
+         faulty helper is waiting for at that moment (so that the injected position is reached by construction, not by luck).
 Oracle : termination = deterministic step budget (wrappers on the interpreter's per-internal-event and per-slide entry
          points) + confirmed watchdog; isolation = through the real RuntimeV2_x.process_events no exception escapes, after
          every EvC each canary emitted exactly one marker, a reached fault is reported by a ColangError event seen by the
-         watcher flow, and the C09 invariants still hold.
+         watcher flow, and the C09 invariants still hold. For a valid comparison pattern an error is only demanded when the
+         delivered value forces a number to be compared with a str / list / dict; for every other payload (None, int vs
+         float, well-typed, missing) only the unconditional parts (no escape, canaries, termination, invariants) are asserted.
 """
 import asyncio
+import math
 
 from hypothesis import strategies as st
 
@@ -26,15 +33,23 @@ HANG_IS_VIOLATION = True
 RULE = (
     "helpers h0..h3 from the co2 grammar; main = activate canary, canary2 (@loop), watcher, 0-2 immediate flows (finish|return|abort|raise "
     "before any wait), then start/activate every parameterless helper, then `match Never()`; fault = (helper, top-level position, kind) with kind "
-    "in {add-str, subscript, undefined-attr, bad-regex-match (alone / with a child flow waiting for the same event / inside an or- or and-group), bad-compare-match, surplus-args, priority-range, action-arg-type, none}; for each generated "
-    "program the quick tier draws the position, `enumerate_cases` walks every position x kind for a fixed family of programs; history of <=16 items "
-    "incl. EvC. Non-trivial = the fault position was reached (marker `Reached` seen, or a head was parked on the faulty match when EvC arrived) or an "
-    "immediate activated flow of kind abort/raise is present; distinct by case."
+    "in {add-str, subscript, undefined-attr, bad-regex-match (alone / with a child flow waiting for the same event / inside an or- or and-group), bad-compare-match, surplus-args, priority-range, action-arg-type, "
+    "compare-type-match (a VALID comparison pattern op(ref), op in less_than|equal_less_than|greater_than|equal_greater_than|not_equal_to, ref int or float, plain / inside a list pattern / inside a dict pattern; "
+    "statement alone / `as $ref` / with a child flow waiting for the same event / inside an or- or and-group - the error only arises when an EvC value of another type is matched against it), none}; for each generated "
+    "program the quick tier draws the position, `enumerate_cases` walks every position x kind for a fixed family of programs (for compare-type-match: position x statement shape x nesting with a history that first "
+    "delivers well-typed values and then wrong-typed ones, and operator x reference x nesting x payload class at one position); history of <=18 items incl. EvC - either free, or steered (free prefix, then 1-6 items `toward` = an event that a waiting statement of the helper carrying the fault, or of a flow it started, "
+    "is waiting for at that moment: alphabet event with the parameters the statement names, or the end of an action it awaits; then EvC items mixed with further steering; label history-steered-towards-fault) -, each EvC carrying a drawn payload "
+    "(str | list | dict | None | number of the other numeric type | well-typed number not satisfying the comparison | parameter missing; optionally wrapped like the pattern's nesting; bare item = \"x1\"). "
+    "Non-trivial = the fault position was reached (marker `Reached` seen, or a head was parked on the faulty match when an EvC arrived whose evaluation has to fail: any EvC for an invalid pattern, "
+    "an EvC that makes a number meet a str/list/dict for a valid comparison pattern) or an immediate activated flow of kind abort/raise is present; distinct by case. Labels cmp-op-*, cmp-ref-*, cmp-nest-*, "
+    "cmp-parked-got-<payload class> show what was delivered to a parked comparison pattern (…-not-compared: wrong type but not where the pattern compares; wrong-type-after-well-typed: the failing value came after tolerated ones)."
 )
 ASSUMPTIONS = [
     "step budget = max(2000, 200 x source lines) interpreter steps (internal events processed + slides) per fed event; the order of magnitude of the largest per-event count is reported in the class histogram (steps<=N)",
     "main never awaits a helper, so a failing helper cannot legitimately take the canaries down with it",
     "no generated flow other than the injected faulty match listens to the canary event EvC, so a canary can never legitimately lose an action conflict",
+    "numbers delivered to a valid comparison pattern never satisfy it (constructed from operator and reference; checked again in prop, otherwise skipped), so the helper never legitimately advances on EvC and competes with the canary of its loop",
+    "a ColangError is demanded for a valid comparison pattern only when a number has to be compared with a str, list or dict; None, bool and int-vs-float are treated as unspecified (the implementation rejects them too, the check does not rely on it)",
 ]
 WALL = {"quick": 170, "thorough": 1500}
 
@@ -51,8 +66,33 @@ FAULTS = {
     "bad-regex-match-with-child": 'start evcchild\nmatch EvC(v=regex("("))',
     "bad-regex-match-or-group": 'match EvC(v=regex("(")) or EvC(v="other")',
     "bad-regex-match-and-group": 'match EvC(v=regex("(")) and EvC()',
+    # a comparison pattern that is VALID when the statement is evaluated (CMP = op(number), possibly inside a list / dict pattern):
+    # the runtime error only exists in the combination with an incoming EvC whose value has another type, i.e. it is raised
+    # while the event is matched, after the pattern itself evaluated fine
+    "compare-type-match": "match EvC(v=CMP)",
+    "compare-type-match-as-ref": "match EvC(v=CMP) as $cmpref",
+    "compare-type-match-with-child": "start evcchild\nmatch EvC(v=CMP)",
+    "compare-type-match-or-group": 'match EvC(v=CMP) or EvC(v="other")',
+    "compare-type-match-and-group": "match EvC(v=CMP) and EvC()",
 }
-MATCH_FAULTS = ("bad-regex-match", "bad-compare-match", "bad-regex-match-with-child", "bad-regex-match-or-group", "bad-regex-match-and-group")
+CMP_FAULTS = ("compare-type-match", "compare-type-match-as-ref", "compare-type-match-with-child", "compare-type-match-or-group", "compare-type-match-and-group")
+MATCH_FAULTS = ("bad-regex-match", "bad-compare-match", "bad-regex-match-with-child", "bad-regex-match-or-group", "bad-regex-match-and-group") + CMP_FAULTS
+# comparison patterns: operator x reference number (int and float) x nesting of the pattern inside the parameter value
+CMP_OPS = {
+    "less_than": lambda v, r: v < r,
+    "equal_less_than": lambda v, r: v <= r,
+    "greater_than": lambda v, r: v > r,
+    "equal_greater_than": lambda v, r: v >= r,
+    "not_equal_to": lambda v, r: v != r,
+}
+CMP_REFS = [5, 0, -3, 1000000, 5.0, 2.5, -0.5]
+CMP_NESTS = ("plain", "list", "dict")
+CMP_DEFAULT = {"op": "less_than", "ref": 5, "nest": "plain"}
+# payload classes of the canary event EvC (history item ["evc", [class, i], wrap]); a bare ["evc"] carries the string "x1"
+PAY_STR = ["x1", "", "5", "a b"]
+PAY_LIST = [[], ["a"], [["a"]]]
+PAY_DICT = [{}, {"a": "s"}, {"b": "s"}]
+PAY_CLASSES = ("str", "list", "dict", "none", "cross", "ok", "missing")
 IMMEDIATE = {
     "finish": ["send ImmOut()"],
     "return": ["return"],
@@ -85,6 +125,136 @@ class StepBudget(BaseException):
     pass
 
 
+def _cmp_of(case):
+    c = dict(CMP_DEFAULT)
+    c.update(case["fault"].get("cmp") or {})
+    return c
+
+
+def _cmp_text(cmp):
+    t = "%s(%r)" % (cmp["op"], cmp["ref"])
+    return {"plain": t, "list": "[%s]" % t, "dict": '{"a": %s}' % t}[cmp["nest"]]
+
+
+def _unsatisfying(cmp, k):
+    """A number of the reference's own type that does NOT satisfy the comparison (k = distance from the border)."""
+    r = cmp["ref"]
+    d = {"less_than": k, "equal_less_than": k + 1, "greater_than": -k, "equal_greater_than": -k - 1, "not_equal_to": 0}[cmp["op"]]
+    return r + d
+
+
+def payload(item, cmp):
+    """History item ["evc"] | ["evc", [class, i], wrap] -> (class, has_v, value) of the EvC event."""
+    if len(item) < 2 or item[1] is None:
+        return "str", True, "x1"
+    spec = item[1]
+    cls, i = spec[0], (spec[1] if len(spec) > 1 else 0)
+    if cls == "missing":
+        return cls, False, None
+    if cls == "str":
+        v = PAY_STR[i % len(PAY_STR)]
+    elif cls == "list":
+        v = PAY_LIST[i % len(PAY_LIST)]
+    elif cls == "dict":
+        v = PAY_DICT[i % len(PAY_DICT)]
+    elif cls == "none":
+        v = None
+    elif cls == "ok":
+        v = _unsatisfying(cmp, i)
+    elif cls == "cross":
+        # the other numeric type (float where an int is compared and vice versa), numerically not satisfying either
+        n = _unsatisfying(cmp, i + 1)
+        if isinstance(cmp["ref"], int):
+            v = float(n)
+        elif cmp["op"] in ("less_than", "equal_less_than"):
+            v = math.ceil(n)
+        elif cmp["op"] in ("greater_than", "equal_greater_than"):
+            v = math.floor(n)
+        elif n == int(n):
+            v = int(n)
+        else:
+            return "missing", False, None  # every int differs from a fractional reference: nothing unsatisfying to send
+    else:
+        raise ValueError(cls)
+    if len(item) > 2 and item[2]:
+        v = {"plain": v, "list": [v], "dict": {"a": v}}[cmp["nest"]]
+    return cls, True, v
+
+
+def _toward(state, case, item, sess):
+    """History item ["toward", i, v]: an event one of the waiting statements of the helper that carries the fault (or of a flow it
+    started) is waiting for - alphabet events with the parameters the statement asks for, or the end of an action it awaits."""
+    s = smh.sm()
+    target = "h%d" % (case["fault"]["helper"] % len(case["helpers"]))
+    cands = []
+    for fs in state.flow_states.values():
+        if not s.is_listening_flow(fs):
+            continue
+        anc, depth = fs, 0
+        while anc is not None and anc.flow_id != target and depth < 20:
+            anc, depth = state.flow_states.get(anc.parent_uid) if anc.parent_uid else None, depth + 1
+        if anc is None or anc.flow_id != target:
+            continue
+        cfg = state.flow_configs[fs.flow_id]
+        for head in fs.heads.values():
+            if head.status == s.FlowHeadStatus.INACTIVE or not 0 <= head.position < len(cfg.elements):
+                continue
+            el = cfg.elements[head.position]
+            if not s.is_match_op_element(el):
+                continue
+            try:
+                ref = s.get_event_from_element(state, fs, el)
+            except Exception:
+                continue
+            name = ref.name
+            if name.startswith("Ev") and name[2:].isdigit():
+                d = {"type": name}
+                for k, v in ref.arguments.items():
+                    if isinstance(v, (int, str)):
+                        d[k] = v
+                if "v" not in d and len(item) > 2 and item[2] is not None and not (item[1] % 2):
+                    d["v"] = item[2]
+                cands.append((fs.flow_id, head.position, name, d))
+            elif name.endswith("ActionFinished") and getattr(ref, "action_uid", None) in sess["running"]:
+                cands.append((fs.flow_id, head.position, name, {"type": name, "action_uid": ref.action_uid, "is_success": True}))
+    if not cands:
+        return None
+    cands.sort(key=lambda c: c[:3])
+    d = cands[item[1] % len(cands)][3]
+    if "action_uid" in d:
+        sess["running"].remove(d["action_uid"])
+    return d
+
+
+def _numbers(v):
+    if isinstance(v, bool):
+        return
+    if isinstance(v, (int, float)):
+        yield v
+    elif isinstance(v, list):
+        for x in v:
+            yield from _numbers(x)
+    elif isinstance(v, dict):
+        for x in v.values():
+            yield from _numbers(x)
+
+
+def _wrong_type(v):
+    # a value that is no number at all (None = "no value" and the int/float/bool cross cases are left unspecified)
+    return isinstance(v, (str, list, dict))
+
+
+def compare_must_fail(cmp, has_v, value):
+    """True when matching the pattern against the value has to compare a number with a non-number."""
+    if not has_v:
+        return False
+    if cmp["nest"] == "plain":
+        return _wrong_type(value)
+    if cmp["nest"] == "list":
+        return isinstance(value, list) and len(value) == 1 and _wrong_type(value[0])
+    return isinstance(value, dict) and list(value) == ["a"] and _wrong_type(value["a"])
+
+
 _rt = {}
 
 
@@ -102,9 +272,31 @@ def _case(draw):
     first_wait = next(i for i, st_ in enumerate(helpers[h]["body"]) if st_["k"] in ("match", "matchg"))
     pos = draw(st.integers(first_wait + 1, len(helpers[h]["body"])))
     imm = draw(st.lists(st.sampled_from(list(IMMEDIATE)), max_size=2, unique=True))
-    hist_item = st.one_of(st.just(["evc"]), st.just(["evc"]), st.just(["evz"]), co2.history_item())
-    hist = draw(st.lists(hist_item, min_size=2, max_size=16))
-    return {"helpers": helpers, "fault": {"kind": kind, "helper": h, "pos": pos}, "imm": imm, "hist": hist, "choices": draw(st.lists(st.integers(0, 3), max_size=2)), "activate_helpers": draw(st.booleans())}
+    toward = st.tuples(st.just("toward"), st.integers(0, 5), st.sampled_from([None, 0, 1])).map(list)
+    hist_item = st.one_of(st.just(["evc"]), _evc_item(), st.just(["evz"]), co2.history_item())
+    if draw(st.booleans()):
+        hist = draw(st.lists(hist_item, min_size=2, max_size=16))
+    else:
+        # steered: free prefix, a run of events the faulty helper is waiting for, then canary events with payloads mixed with further steering
+        hist = draw(st.lists(hist_item, max_size=4)) + draw(st.lists(toward, min_size=1, max_size=6))
+        hist += draw(st.lists(st.one_of(st.just(["evc"]), _evc_item(), _evc_item(), toward, hist_item), min_size=2, max_size=8))
+    fault = {"kind": kind, "helper": h, "pos": pos}
+    cmp = draw(st.fixed_dictionaries({"op": st.sampled_from(sorted(CMP_OPS)), "ref": st.sampled_from(CMP_REFS), "nest": st.sampled_from(("plain",) + CMP_NESTS)}))
+    if kind in CMP_FAULTS:
+        fault["cmp"] = cmp
+    return {"helpers": helpers, "fault": fault, "imm": imm, "hist": hist, "choices": draw(st.lists(st.integers(0, 3), max_size=2)), "activate_helpers": draw(st.booleans())}
+
+
+def _evc_item():
+    spec = st.one_of(
+        st.tuples(st.just("str"), st.integers(0, len(PAY_STR) - 1)),
+        st.tuples(st.just("list"), st.integers(0, len(PAY_LIST) - 1)),
+        st.tuples(st.just("dict"), st.integers(0, len(PAY_DICT) - 1)),
+        st.tuples(st.sampled_from(("none", "cross", "missing")), st.just(0)),
+        st.tuples(st.just("ok"), st.integers(0, 3)),
+        st.tuples(st.just("ok"), st.integers(0, 3)),
+    ).map(list)
+    return st.tuples(st.just("evc"), spec, st.booleans()).map(list)
 
 
 def strategy(tier):
@@ -128,6 +320,23 @@ def enumerate_cases(tier):
             for pos in range(1, len(fl["body"]) + 1):
                 for kind in FAULTS:
                     yield {"helpers": helpers, "fault": {"kind": kind, "helper": h, "pos": pos}, "imm": [], "hist": hist, "choices": [], "activate_helpers": False}
+    # comparison patterns: (a) every position x statement shape with a history that parks the head, delivers well-typed values that
+    # do not satisfy the comparison and only then a value of a wrong type; (b) operator x reference x nesting x payload class at one position
+    pays = [["ok", 0], ["str", 2], ["ok", 1], ["list", 1], ["missing", 0], ["dict", 1], ["cross", 0], ["str", 0], ["none", 0]]
+    hist_c = [[x[0], pays[i // 2], True] if x[0] == "evc" else x for i, x in enumerate(hist)]
+    for helpers in fam:
+        for h, fl in enumerate(helpers):
+            for pos in range(1, len(fl["body"]) + 1):
+                for kind in CMP_FAULTS:
+                    for nest in CMP_NESTS:
+                        yield {"helpers": helpers, "fault": {"kind": kind, "helper": h, "pos": pos, "cmp": {"op": "less_than", "ref": 5, "nest": nest}}, "imm": [], "hist": hist_c, "choices": [], "activate_helpers": nest == "list"}
+    for op in sorted(CMP_OPS):
+        for ref in CMP_REFS:
+            for nest in CMP_NESTS:
+                for cls in PAY_CLASSES:
+                    for wrap in (True, False) if nest != "plain" and cls in ("str", "list", "dict") else (True,):
+                        hist_p = [["ev", 0, None], ["evc", ["ok", 2], True], ["evc", [cls, 1], wrap], ["evc", ["str", 3], True], ["evc"]]
+                        yield {"helpers": fam[0], "fault": {"kind": "compare-type-match", "helper": 0, "pos": 1, "cmp": {"op": op, "ref": ref, "nest": nest}}, "imm": [], "hist": hist_p, "choices": [], "activate_helpers": cls in ("ok", "cross")}
     hist_z = [["evc"], ["evz"], ["evc"], ["evc"], ["ev", 0, None], ["evc"]]
     for imm in IMMEDIATE:
         for act in (False, True):
@@ -143,6 +352,7 @@ def build(case):
         body = list(h["body"])
         pos = min(f["pos"], len(body))
         text = FAULTS[f["kind"]].replace("hlast", f"h{len(helpers) - 1}" if (f["helper"] % len(helpers)) != len(helpers) - 1 else "canaryhelper")
+        text = text.replace("CMP", _cmp_text(_cmp_of(case)))
         lines = [{"k": "raw", "text": t} for t in text.split("\n")]
         inj = lines if f["kind"] in MATCH_FAULTS else [{"k": "raw", "text": "send Reached()"}] + lines
         h["body"] = body[:pos] + inj + body[pos:]
@@ -210,6 +420,10 @@ def prop(case):
     rt.flow_configs = create_flow_configs_from_flow_list(smh.parse(text))
     counter = _rt["counter"]
     kind = case["fault"]["kind"]
+    cmp = _cmp_of(case)
+    delivered = set()
+    benign_parked = False
+    toward_used = 0
     max_steps = 0
     loop = asyncio.new_event_loop()
     real_sleep = rmod.asyncio.sleep
@@ -259,13 +473,31 @@ def prop(case):
         if bad:
             raise Violation(bad[0][0], f"after start: {bad[0][1]}\n{text}")
         for i, item in enumerate(case["hist"]):
-            parked_fault = False
+            parked_fault = must_fail = False
             if item[0] == "evz":
                 ev = {"type": "EvZ"}
             elif item[0] == "evc":
-                ev = {"type": "EvC", "v": "x1"}
+                pay_cls, has_v, value = payload(item, cmp)
+                ev = {"type": "EvC"}
+                if has_v:
+                    ev["v"] = value
+                if kind in CMP_FAULTS and any(CMP_OPS[cmp["op"]](n, cmp["ref"]) for n in _numbers(value)):
+                    # the helper would legitimately go on and compete with the canary of its loop (never generated; hand-written replays)
+                    return ok(skip="payload-could-satisfy-the-comparison")
                 waiting = smh.scan_matchers(state).get("EvC", [])
                 parked_fault = any(state.flow_states[f].flow_id.startswith("h") for f, _ in waiting)
+                # an erroneous pattern fails whatever arrives; a valid comparison pattern only when it has to compare a non-number
+                must_fail = parked_fault and (kind not in CMP_FAULTS or compare_must_fail(cmp, has_v, value))
+                if parked_fault and kind in CMP_FAULTS:
+                    delivered.add(pay_cls if must_fail or pay_cls not in ("str", "list", "dict") else pay_cls + "-not-compared")
+                    if must_fail and benign_parked:
+                        delivered.add("wrong-type-after-well-typed")
+                    benign_parked |= not must_fail
+            elif item[0] == "toward":
+                ev = _toward(state, case, item, sess)
+                if ev is None:
+                    continue
+                toward_used += 1
             else:
                 fake = smh.Session.__new__(smh.Session)
                 fake.state, fake.running, fake.action_type = state, sess["running"], sess["types"]
@@ -286,12 +518,12 @@ def prop(case):
                 if (c1, c2) != (1, 1):
                     raise Violation(
                         "canary-starved" if parked_fault else "canary-miscount",
-                        f"after EvC (#{i}) canaries emitted CanaryOut x{c1}, Canary2Out x{c2} (expected 1 and 1); faulty head parked on EvC: {parked_fault}; events {types}\n{text}",
+                        f"after EvC (#{i}) {ev} canaries emitted CanaryOut x{c1}, Canary2Out x{c2} (expected 1 and 1); faulty head parked on EvC: {parked_fault}; events {types}\n{text}",
                     )
-                if parked_fault:
+                if must_fail:
                     reached = True
                     if "SawError" not in types:
-                        raise Violation("error-not-reported", f"erroneous match {kind} evaluated on EvC (#{i}) but no ColangError observed; events {types}\n{text}")
+                        raise Violation("error-not-reported", f"erroneous match {kind} evaluated on EvC (#{i}) {ev} but no ColangError observed; events {types}\n{text}")
             bad = smh.invariants(state)
             if bad:
                 raise Violation(bad[0][0], f"after event #{i} {ev}: {bad[0][1]}\n{text}")
@@ -303,10 +535,15 @@ def prop(case):
         nt = True
     labels = ["fault-" + kind, "reached" if reached else "not-reached"]
     labels += ["imm-" + k for k in case["imm"]]
+    if kind in CMP_FAULTS:
+        labels += ["cmp-op-" + cmp["op"], "cmp-ref-" + type(cmp["ref"]).__name__, "cmp-nest-" + cmp["nest"]]
+        labels += ["cmp-parked-got-" + d for d in sorted(delivered)]
     if saw_error:
         labels.append("colang-error-seen")
     if case["activate_helpers"]:
         labels.append("helpers-activated")
+    if toward_used:
+        labels.append("history-steered-towards-fault")
     view = {"program": text, "history": case["hist"][:10], "fault": case["fault"], "reached": reached}
     if co2.has_recursion({"flows": list(case["helpers"]) + [{"body": []}]}):
         labels.append("recursive-flow-calls")
